@@ -436,6 +436,12 @@ func (s *spanScreen) scroll(y1 int, y2 int, dy int) {
 	y2 = clamp(y2, 0, s.size.Y-1)
 	if y1 > y2 {
 		fmt.Fprintln(os.Stderr, "scroll ys out of order", y1, y2, dy)
+		return
+	}
+	if h := y2 - y1 + 1; dy > h {
+		dy = h
+	} else if dy < -h {
+		dy = -h
 	}
 
 	if dy > 0 {
